@@ -170,7 +170,11 @@ def simulate(ops, max_qubits=6, max_branches=64, defs=None):
                 continue
             if k == "gate":
                 _, name, args, qs, mods = o
-                M = gatenum.basis_matrix(name, [float(a) for a in args])
+                try:
+                    M = gatenum.basis_matrix(name, [float(a) for a in args])
+                except KeyError:
+                    # a kept (external) library gate: its defining unitary (spec/gates_spec.py)
+                    M = np.array(gatenum.gates_spec.numeric(name, [float(a) for a in args]), dtype=complex)
                 if len(mods) % 2 == 1:
                     M = M.conj().T
                 idx = [off[r] + i for r, i in qs]
